@@ -29,12 +29,24 @@ typedef __typeof__(*(AOCS_a0)0) NODE_T;
 uint64_t IN_K; unsigned IN_depth; uint8_t IN_Qb; static const uint64_t IN_vlen = 1;    /* constant value length: every length is covered by tree.db64.make_leaf */
 static uint8_t *G_obj, *G_db, *G_val; static struct nview GV0, GV1, GVN; static uint8_t G_b; static struct stats S0, S1;
 #ifdef HAVE_P_GROW
-/* KIND 3: the N48 -> N256 copy routine does not close inside this job (256-step loop with symbolic read indices); the growth branch is cut off
- * here and stays NOT covered for this class (stated in the job's notes).  The stub still checks WHEN growth happens. */
-static _Bool G_full;
+/* KIND 3: the copy routine basic_inode_256::init(db, inode_48& source, leaf, depth) is replaced by ITS CONTRACT: the array part of the constructor
+ * contract proved on the real routine with loop invariants in node.db64.ctor.i48_to_i256 (the header - prefix, count - is written by the
+ * parent-class constructor, which stays real here):
+ *   requires  source = this node, well-formed and full, the leaf's key byte at `depth` absent
+ *   ensures   view(new) = view(source) + [b -> leaf] (pointwise: at K's byte and at the witness byte), the leaf's ownership is taken,
+ *             the source node is handed to its deleter exactly once (the REAL deleter runs: ledger and statistics) */
+static _Bool G_full; static unsigned G_pgrow; static uint64_t G_qch;
 void P_GROW(P_GROW_a0 self, P_GROW_a1 db, P_GROW_a2 src, P_GROW_a3 child_up, P_GROW_a4 depth) {
-  __CPROVER_assert((uint8_t *)src == G_obj && G_full, "C10: growth happens only at capacity");
-  VERIF_CANARY("growth branch reachable (cut off)"); __CPROVER_assume(0);
+  __CPROVER_assert((uint8_t *)src == G_obj && G_full && (void *)db == (void *)G_db && *(uint32_t *)&depth == IN_depth, "C10: growth happens only at capacity, on this node, at this depth");
+  uint8_t **lp = (uint8_t **)((uint8_t *)child_up + LAY_LEAFUP_PTR); uint8_t *leaf = *lp;
+  __CPROVER_assert(leaf != 0 && LEAF_KEY(leaf) == IN_K, "contract requires: the new leaf");
+  G_pgrow++; *lp = 0;
+  uint8_t *d = (uint8_t *)self;
+  for (unsigned j = 0; j < 256; j++) *(uint64_t *)(d + n_off_children(4) + 8u * j) = nondet_u64();
+  struct nview nd; nv_load(&nd, d, 4);
+  __CPROVER_assume(nv_child(&nd, G_b) == adt_tag(leaf, T_LEAF) && (IN_Qb == G_b || nv_child(&nd, IN_Qb) == G_qch));
+  void *dd = (void *)db;
+  INODE_DELETER((INODE_DELETER_a0)&dd, (INODE_DELETER_a1)src);
 }
 #endif
 static _Bool node_wf(const struct nview *v) {
@@ -57,7 +69,7 @@ void harness(void) {
   nv_load(&GV0, G_obj, KIND); __CPROVER_assume(node_wf(&GV0));
   const uint64_t ch = nv_child(&GV0, G_b), qch = nv_child(&GV0, IN_Qb);
 #ifdef HAVE_P_GROW
-  G_full = nv_count(&GV0) == n_capacity(KIND);
+  G_full = nv_count(&GV0) == n_capacity(KIND); G_qch = qch;
 #endif
 #if KIND == 4
   __CPROVER_assume(nv_count(&GV0) < 256 || ch != 0);
@@ -106,17 +118,16 @@ void harness(void) {
     stats_check(&S0, &S1, (int64_t)leafsz, d5, Z4, Z4, 0);
     VERIF_CANARY("in-place add reachable");
   } else {
-#if defined(HAVE_P_GROW)
-    __CPROVER_assert(0, "the growth branch is cut off in this job");
-#elif KIND <= 3
+#if KIND <= 3
     uint8_t *bigger = lg_alloc_p[1];
     __CPROVER_assert(lg_allocs == 2 && lg_alloc_sz[1] == n_size(KIND + 1) && *slot_in_parent == adt_tag(bigger, KIND + 1), "C10: at capacity the node is replaced by a new node of the next larger class");
     __CPROVER_assert(lg_frees == 1 && lg_freed(G_obj), "C10: the replaced node is released exactly once, nothing else");
-#ifndef HAVE_P_GROW
+#ifdef HAVE_P_GROW
+    __CPROVER_assert(G_pgrow == 1, "the copy routine runs exactly once");
+#endif
     nv_load(&GVN, bigger, KIND + 1);
     __CPROVER_assert(nv_count(&GVN) == nv_count(&GV0) + 1 && GVN.prefix == GV0.prefix && nv_child(&GVN, G_b) == leafw, "C01/C10: the new node has one more child, the same prefix, and the key byte leads to the new leaf");
     if (IN_Qb != G_b) __CPROVER_assert(nv_child(&GVN, IN_Qb) == qch, "C01: every other key byte leads where it led before (arbitrary witness byte)");
-#endif
     d5[KIND] = -1; d5[KIND + 1] = 1; g4[KIND] = 1;
     stats_check(&S0, &S1, (int64_t)leafsz + (int64_t)n_size(KIND + 1) - (int64_t)n_size(KIND), d5, g4, Z4, 0);
     VERIF_CANARY("growth reachable");
